@@ -214,10 +214,15 @@ type c08Spec struct {
 	SkipIndex bool
 	Async     bool
 	ReadBuf   int
+	ValBuf    int // rowgroup-rows-valbuf: slots of the per-column value buffer of the row reader
 }
 
 func (sp c08Spec) String() string {
-	return fmt.Sprintf("%s rg=%d col=%d range=%d+%d skipindex=%v async=%v readbuf=%d", sp.Kind, sp.RG, sp.Col, sp.Off, sp.Len, sp.SkipIndex, sp.Async, sp.ReadBuf)
+	s := fmt.Sprintf("%s rg=%d col=%d range=%d+%d skipindex=%v async=%v readbuf=%d", sp.Kind, sp.RG, sp.Col, sp.Off, sp.Len, sp.SkipIndex, sp.Async, sp.ReadBuf)
+	if sp.ValBuf > 0 {
+		s += fmt.Sprintf(" valbuf=%d", sp.ValBuf)
+	}
+	return s
 }
 
 var c08Kinds = []string{
@@ -225,6 +230,9 @@ var c08Kinds = []string{
 	"values",             // parquet.NewColumnChunkValueReader
 	"rowgroup-rows",      // FileRowGroup.Rows()
 	"rowgroup-rowreader", // parquet.NewRowGroupRowReader(rowGroup)
+	// the same reader with a value buffer of 1..7 slots per column (verif hook): every row of a
+	// repeated column then spans several ReadValues refills, as rows of > 170 values do in production
+	"rowgroup-rows-valbuf",
 	"reader-readrows",    // parquet.NewReader(file).SeekToRow/ReadRows
 	"reader-read",        // parquet.NewReader(file).SeekToRow/Read(&row)
 	"generic-reader",     // parquet.NewGenericReader[T](file).SeekToRow/Read
@@ -424,6 +432,9 @@ func (f *c08File) open(sp c08Spec) (v *c08View, err error) {
 	case "rowgroup-rowreader":
 		rgBase()
 		useRows(parquet.NewRowGroupRowReader(pf.RowGroups()[sp.RG]))
+	case "rowgroup-rows-valbuf":
+		rgBase()
+		useRows(parquet.VerifNewRowGroupRows(pf.RowGroups()[sp.RG], max(sp.ValBuf, 1)))
 	case "reader-readrows":
 		v.total = f.n
 		rd := parquet.NewReader(pf)
@@ -756,6 +767,9 @@ func (ck *c08Checker) step(op c08Op) (desc string, fail *c08Fail) {
 			}
 		}
 		ck.pos = pos + n
+		if err == nil || err == io.EOF {
+			ck.lastKind, ck.lastNR = "page", n
+		}
 		return finish(n, err, "rows")
 	case "page":
 		tr, nr, err := v.readPage()
@@ -945,10 +959,26 @@ type c08Row struct {
 }
 
 func c08LocalFile(n int, opts ...parquet.WriterOption) (*c08File, error) {
+	return c08LocalFileTags(n, func(i int) int { return i % 4 }, opts...)
+}
+
+// c08LongListLens: list lengths around the multiples of the row reader's value buffer (170 values):
+// a row of the repeated column then spans several ReadValues refills
+var c08LongListLens = []int{0, 1, 169, 170, 171, 2, 339, 340, 341, 0, 511, 3, 600, 170, 170, 1, 0, 168, 172, 1025}
+
+func c08LongListFile(opts ...parquet.WriterOption) (*c08File, error) {
+	f, err := c08LocalFileTags(3*len(c08LongListLens), func(i int) int { return c08LongListLens[i%len(c08LongListLens)] }, opts...)
+	if f != nil {
+		f.desc = "c08Row long lists " + f.desc
+	}
+	return f, err
+}
+
+func c08LocalFileTags(n int, tagsLen func(i int) int, opts ...parquet.WriterOption) (*c08File, error) {
 	rows := make([]c08Row, n)
 	for i := range rows {
 		rows[i] = c08Row{ID: int64(i), S: fmt.Sprintf("s%03d", i%17)}
-		for j := 0; j < i%4; j++ {
+		for j := 0; j < tagsLen(i); j++ {
 			rows[i].Tags = append(rows[i].Tags, int32(i*10+j))
 		}
 		if i%3 != 0 {
@@ -1039,6 +1069,9 @@ func c08RandSpec(f *c08File, r *rand.Rand, kind string) (c08Spec, bool) {
 	}
 	if strings.HasPrefix(kind, "buffer-") {
 		sp.SkipIndex, sp.Async, sp.ReadBuf = false, false, 0
+	}
+	if kind == "rowgroup-rows-valbuf" {
+		sp.ValBuf = []int{1, 1, 2, 3, 5, 7}[r.Intn(6)]
 	}
 	return sp, true
 }
@@ -1437,6 +1470,140 @@ func (w *c08Worker) corruptCases(f *c08File, r *rand.Rand, origin string, n int)
 	}
 }
 
+// ---------------------------------------------------------------- the value-level loop of ReadRows
+
+func c08Join(xs []int) string {
+	s := make([]string, len(xs))
+	for i, x := range xs {
+		s[i] = strconv.Itoa(x)
+	}
+	return strings.Join(s, ",")
+}
+
+// valueLoopCheck reads one row group sequentially through the row reader built with a value buffer
+// of `bufsize` slots per column. L1: the rows are the written ones. L2: for every column the number
+// of rows and the number of values appended to each row, read after read, are those of the Lean
+// mirror of the loop (`rowsv.run`) run on the column's pages of repetition levels cut into batches
+// of `bufsize`.
+func (w *c08Worker) valueLoopCheck(f *c08File, r *rand.Rand, origin string) {
+	ctx := w.ctx
+	if f.nrg() == 0 || f.bad != nil {
+		return
+	}
+	rg := r.Intn(f.nrg())
+	base, tot := f.rgStart[rg], f.rgStart[rg+1]-f.rgStart[rg]
+	if tot == 0 {
+		return
+	}
+	bufsize := []int{1, 2, 3, 5, 8, 170}[r.Intn(6)]
+	pf, err := parquet.OpenFile(bytes.NewReader(f.data), int64(len(f.data)))
+	if err != nil {
+		return
+	}
+	desc := fmt.Sprintf("%s|%s|value-loop rg=%d valbuf=%d", f.desc, hashHex(f.data), rg, bufsize)
+	var batches []int
+	var counts []int
+	lens := make([][][]int, f.ncol) // [col][read][row]
+	var fail string
+	func() {
+		defer func() {
+			if p := recover(); p != nil {
+				fail = fmt.Sprintf("PANIC %v", p)
+			}
+		}()
+		rr := parquet.VerifNewRowGroupRows(pf.RowGroups()[rg], bufsize)
+		defer rr.Close()
+		pos := 0
+		for len(batches) < 60 {
+			b := []int{1, 1, 2, 3, 7, 10, 64}[r.Intn(7)]
+			buf := make([]parquet.Row, b)
+			n, err := rr.ReadRows(buf)
+			batches, counts = append(batches, b), append(counts, n)
+			tr := rowsToTriples(buf[:n], f.ncol)
+			for c := 0; c < f.ncol; c++ {
+				var l []int
+				for i := 0; i < n; i++ {
+					l = append(l, len(tr[i][c]))
+					if fail == "" && (pos+i >= tot || !triplesEqual(tr[i][c], f.rowTr[c][base+pos+i])) {
+						fail = fmt.Sprintf("read #%d (ReadRows(%d) at row %d): row %d column %d holds %v", len(batches)-1, b, pos, pos+i, c, tr[i][c])
+					}
+				}
+				lens[c] = append(lens[c], l)
+			}
+			want := min(b, tot-pos)
+			if fail == "" && n != want {
+				fail = fmt.Sprintf("read #%d (ReadRows(%d) at row %d of %d) returned %d rows (%s)", len(batches)-1, b, pos, tot, n, errName(err))
+			}
+			pos += n
+			if err != nil && err != io.EOF && fail == "" {
+				fail = fmt.Sprintf("read #%d (ReadRows(%d) at row %d) failed: %v", len(batches)-1, b, pos, err)
+			}
+			if err != nil || n == 0 {
+				break
+			}
+		}
+	}()
+	ctx.Case(desc+"|"+c08Join(batches), false)
+	ctx.Hist("value-loop-valbuf", strconv.Itoa(bufsize))
+	if fail != "" {
+		ctx.Fail("L1", "rowgroup-rows-valbuf-sequential-wrong-rows", "the row reader with a small value buffer does not return the written rows: "+fail,
+			map[string]any{"file": f.desc, "origin": origin, "row_group": rg, "valbuf": bufsize, "batches": batches, "file_sha256": hashHex(f.data)})
+		return
+	}
+	if w.d == nil {
+		return
+	}
+	for c := 0; c < f.ncol; c++ {
+		bounds := f.bounds[rg][c]
+		if len(bounds) == 0 {
+			bounds = []int64{0}
+		}
+		var pages []string
+		for pi := range bounds {
+			lo, hi := int(bounds[pi]), tot
+			if pi+1 < len(bounds) {
+				hi = int(bounds[pi+1])
+			}
+			var reps []int
+			for row := lo; row < hi; row++ {
+				for _, t := range f.rowTr[c][base+row] {
+					reps = append(reps, int(t.Rep))
+				}
+			}
+			if len(reps) == 0 {
+				pages = nil
+				break
+			}
+			pages = append(pages, c08Join(reps))
+		}
+		if pages == nil {
+			continue
+		}
+		var want []string
+		for i := range batches {
+			want = append(want, fmt.Sprintf("%d:%s", counts[i], c08Join(lens[c][i])))
+		}
+		req := fmt.Sprintf("rowsv.run %d %s %s", bufsize, c08Join(batches), strings.Join(pages, "|"))
+		col := c
+		ctx.Hist("l2-layers", "value-loop")
+		w.reqs = append(w.reqs, req)
+		w.pend = append(w.pend, func(ans string) {
+			got := strings.Fields(ans)
+			ok := len(got) == len(want)+1 && got[0] == "ok"
+			for i := 0; ok && i < len(want); i++ {
+				ok = got[i+1] == want[i]
+			}
+			if !ok {
+				ctx.Fail("L2", "readrows-value-loop-mirror", "the loop of ReadRows and its Lean mirror disagree on the rows / values per row of a column",
+					map[string]any{"file": f.desc, "origin": origin, "row_group": rg, "column": col, "valbuf": bufsize, "request": req, "model": ans, "impl": strings.Join(want, " ")})
+			}
+		})
+	}
+	if len(w.reqs) >= 1000 {
+		w.flush()
+	}
+}
+
 // ---------------------------------------------------------------- driver of the sub-check
 
 type c08Worker struct {
@@ -1674,15 +1841,38 @@ func c08LayerRequest(f *c08File, sp c08Spec, ops []c08Op) string {
 	}
 	rowsKind := false
 	total := f.n
+	// how a read of batch b is written for the model: ReadRows(b), b calls of Read(&v), GenericReader.Read of b
+	readTok := func(b int64) string { return fmt.Sprintf("r%d", b) }
 	switch sp.Kind {
-	case "rowgroup-rows", "rowgroup-rowreader":
+	case "rowgroup-rows", "rowgroup-rowreader", "rowgroup-rows-valbuf":
 		rowsKind, total = true, f.rgStart[sp.RG+1]-f.rgStart[sp.RG]
+	case "range-rows":
+		rowsKind, total = true, sp.Len
 	case "multi-rows", "reader-readrows":
 		rowsKind = true
+	case "reader-read":
+		rowsKind = true
+		readTok = func(b int64) string { return fmt.Sprintf("t%d", b) }
+	case "generic-reader":
+		rowsKind = true
+		readTok = func(b int64) string { return fmt.Sprintf("g%d", b) }
+	case "reader-mixed", "generic-reader-mixed":
+		rowsKind = true
+		typed := "t"
+		if sp.Kind == "generic-reader-mixed" {
+			typed = "g"
+		}
+		readTok = func(b int64) string {
+			if b%2 == 1 {
+				return fmt.Sprintf("%s%d", typed, b)
+			}
+			return fmt.Sprintf("r%d", b)
+		}
 	case "multi-pages", "range-pages":
 	default:
 		return ""
 	}
+	_ = total
 	var sb strings.Builder
 	for i, o := range ops {
 		if i > 0 {
@@ -1691,14 +1881,12 @@ func c08LayerRequest(f *c08File, sp c08Spec, ops []c08Op) string {
 		switch {
 		case o.K == 'i' || (o.K == 's' && o.A < 0):
 			return "" // lazy index load changes the chunk readers opened later; negative indexes are L1 only
-		case o.K == 's' && rowsKind && int(o.A) > total:
-			return "" // reader_seek_refines_partial: seeks up to the end
 		case o.K == 's':
-			fmt.Fprintf(&sb, "s%d", o.A)
+			fmt.Fprintf(&sb, "s%d", o.A) // beyond the last row too (reader_seek_refines)
 		case o.K == 'z':
 			sb.WriteByte('z')
 		case rowsKind:
-			fmt.Fprintf(&sb, "r%d", max(o.A, 1))
+			sb.WriteString(readTok(max(o.A, 1)))
 		default:
 			sb.WriteByte('r')
 		}
@@ -1727,15 +1915,22 @@ func c08LayerRequest(f *c08File, sp c08Spec, ops []c08Op) string {
 	var cols []string
 	for col := 0; col < f.ncol; col++ {
 		c := ""
-		if sp.Kind == "rowgroup-rows" || sp.Kind == "rowgroup-rowreader" {
+		switch sp.Kind {
+		case "rowgroup-rows", "rowgroup-rowreader", "rowgroup-rows-valbuf", "range-rows":
 			c = chunk(sp.RG, col)
-		} else {
+		default:
 			c = column(col)
 		}
 		if c == "" {
 			return ""
 		}
 		cols = append(cols, c)
+	}
+	switch sp.Kind {
+	case "range-rows":
+		return fmt.Sprintf("rrows.run %s %d %d %d %s", strings.Join(cols, ";"), idx, sp.Off, sp.Len, sb.String())
+	case "reader-read", "generic-reader", "reader-mixed", "generic-reader-mixed":
+		return fmt.Sprintf("readerx.run %s %d %s", strings.Join(cols, ";"), idx, sb.String())
 	}
 	return fmt.Sprintf("rows.run %s %d %s", strings.Join(cols, ";"), idx, sb.String())
 }
@@ -1818,6 +2013,9 @@ func RunC08(ctx *core.Ctx) {
 							if strings.HasPrefix(kind, "range-") {
 								sp.Off, sp.Len = 0, 100
 							}
+							if kind == "rowgroup-rows-valbuf" {
+								sp.ValBuf = 1 + col
+							}
 							if strings.HasPrefix(kind, "buffer-") && skip {
 								continue
 							}
@@ -1848,6 +2046,37 @@ func RunC08(ctx *core.Ctx) {
 						}
 					}
 				}
+			}
+		}
+		// rows of a repeated column longer than the value buffer of the row reader (public API only)
+		if lf, err := c08LongListFile(parquet.PageBufferSize(4096)); err != nil {
+			ctx.Fail("L1", "oracle-sequential-read-differs", "long-list file: "+err.Error(), nil)
+		} else {
+			r := ctx.Rand("c08/long-lists")
+			for _, kind := range c08Kinds {
+				for h := 0; h < 3; h++ {
+					sp, ok := c08RandSpec(lf, r, kind)
+					if !ok {
+						continue
+					}
+					if h == 0 {
+						sp.Col = 2 // tags
+					}
+					v, err := lf.open(sp)
+					if err != nil {
+						ctx.Fail("L1", kind+"-open-error", "opening the view failed: "+err.Error(), map[string]any{"file": lf.desc, "view": sp.String()})
+						continue
+					}
+					ops := c08RandOps(lf, sp, v, r)
+					func() {
+						defer func() { recover() }()
+						v.close()
+					}()
+					w.runCase(lf, sp, ops, "long-list file")
+				}
+			}
+			for i := 0; i < 6; i++ {
+				w.valueLoopCheck(lf, r, "long-list file")
 			}
 		}
 		w.flush()
@@ -1889,6 +2118,9 @@ func RunC08(ctx *core.Ctx) {
 					w.sliceCheck(f, r, origin)
 				}
 				w.corruptCases(f, r, origin, ctx.Scale(1, 3))
+				for i := 0; i < ctx.Scale(2, 4); i++ {
+					w.valueLoopCheck(f, r, origin)
+				}
 				for _, kind := range c08Kinds {
 					for h := 0; h < histsPerView; h++ {
 						sp, ok := c08RandSpec(f, r, kind)
